@@ -27,6 +27,8 @@ pub enum Inspect {
 
 const LITERALS: &[&str] = &["PRINT 1", "PRINT \"x\"", "PRINT", "PRINT 1;2,3;", "? \"a\";\"b\"", "REM nothing", "PRINT 2+3*4", "PRINT ABS(-1); INT(2.5)", "PRINT RND(0)", "LIST", "STATS", "PRINT NOT 0 AND 1"];
 const FAILING: &[&str] = &[
+    // a statement that fails without assigning anything: no loop ever uses XQ
+    "NEXT XQ",
     "PRINT 1/0",
     "PRINT \"a\"+1",
     "PRINT (",
